@@ -64,10 +64,27 @@ class _CompositeExtender(Extender):
     def __call__(self, func: Any, *args: Any, **kwargs: Any) -> Any:
         def make_wrapper(ext: Extender, inner_func: Any) -> Any:
             def wrapper(*a: Any, **kw: Any) -> Any:
+                # Remember what the wrapped call did, so that a failing extender neither repeats nor loses it.
+                state: dict[str, Any] = {}
+
+                def tracked_inner(*inner_a: Any, **inner_kw: Any) -> Any:
+                    try:
+                        result = inner_func(*inner_a, **inner_kw)
+                    except Exception as inner_error:
+                        state["error"] = inner_error
+                        raise
+                    state["result"] = result
+                    return result
+
                 try:
-                    return ext.__call__(inner_func, *a, **kw)
+                    return ext.__call__(tracked_inner, *a, **kw)
                 except Exception as e:
+                    if "error" in state:
+                        # The wrapped call itself failed: this is not the extender's fault, do not call it again.
+                        raise state["error"]
                     logging.error(f"{ext.__class__.__name__} {ext.name if hasattr(ext, 'name') else ''} {str(e)}")
+                    if "result" in state:
+                        return state["result"]
                     return inner_func(*a, **kw)
 
             return wrapper
